@@ -105,6 +105,10 @@ func traceScenario(w *world) engine.Scenario {
 	name := "trace/" + w.name
 	return engine.Scenario{Name: name, Bound: -1, Fn: func(c *engine.Chooser) {
 		w.ensure(c)
+		if w.gap > 1 {
+			c.Cover("trace", "skipped-small-plaintext-ring") // coefficient encoding lives in the smaller ring: not judged here
+			return
+		}
 		logN := c.Choose(w.logN, "logN")
 		variant := c.Choose(2, "variant") // 0: Trace into a fresh ciphertext, 1: TraceNew wrapper (ckks) / in place
 		uni.Seed(c, name, logN, variant)
